@@ -151,8 +151,6 @@ def main():
         'notes': 'All checks run /venv/bin/python against /repo (override with QSTRADER_REPO). '
                  'Known findings: /verif/known_findings.json. Replays: /verif/replays/.',
     }
-    if not na:
-        del man['not_applicable']
     with open(os.path.join(HERE, 'MANIFEST.json'), 'w') as f:
         json.dump(man, f, indent=1)
     print('claimed', [c['property_id'] for c in checks], 'not claimed', [n['property_id'] for n in na])
